@@ -1,4 +1,5 @@
 import NflowsModel.Audit.Tool
 import NflowsModel.Properties.C16
+import NflowsModel.Properties.C16D
 
 #audit_namespace Properties.C16
